@@ -43,7 +43,7 @@ pub fn run_c12(cfg: &Cfg) {
     for t in [
         "$0", "$1", "${1}", "$x", "${x}", "$x_1", "${x_1}", "$$", "$", "${", "${}", "${x", "$10", "${10}", "$1a", "\\1", "\\g<1>", "\\g<x>", "\\\\",
         "\\g<", "\\g<>", "\\10", "\\g<x_1>", "$99999999999999999999", "\\99999999999999999999", "${99999999999999999999}", "$é", "${é}",
-        "a$1b$2c", "$_0", "${_0}", "\\g<_0>", "${-1}", "${-}", "\\g<-1>", "$-1", "${-1}x", "${1-}",
+        "${1x}", "$9", "${9}", "\\g<9>", "\\g<1x>", "$9x", "$1x$9", "a$1b$2c", "$_0", "${_0}", "\\g<_0>", "${-1}", "${-}", "\\g<-1>", "$-1", "${-1}x", "${1-}",
     ] {
         templates.push(t.to_string());
     }
@@ -53,6 +53,7 @@ pub fn run_c12(cfg: &Cfg) {
         (r"(?<x_1>é)|(?<_0>b)", "b"),
         (r"(a)(b)(c)(d)(e)(f)(g)(h)(i)(j)(k)", "abcdefghijk"),
         (r"(?<n>\w+) (?<é>\w+)", "ab cd"),
+        (r"(?<1x>a)(?<9>b)(c)", "abc"),
     ];
     let compiled: Vec<(Regex, &str)> = cases.iter().map(|(p, t)| (Regex::new(p).unwrap(), *t)).collect();
     let expanders = [("d", Expander::default()), ("p", Expander::python())];
